@@ -11,6 +11,7 @@ import (
 	"context"
 	"crypto/tls"
 	"fmt"
+	"io"
 	"net"
 	"os"
 	"os/exec"
@@ -161,6 +162,7 @@ func runC18(c *Ctx) {
 	for rep := 0; rep < reps && rep < 2; rep++ {
 		// long cells first so that they overlap with everything else
 		cells = append([]cell{{"tcp+pipeline", "eol-inflight", rep}, {"tls+pipeline", "eol-inflight", rep}, {"tcp", "idle-timer-race", rep}, {"tls", "idle-timer-race", rep}, {"udp", "idle-timer-race", rep},
+			{"tcp", "abandoned-dial", rep}, {"tls", "abandoned-dial", rep}, {"tls", "handshake-stall", rep}, {"tls+pipeline", "handshake-stall", rep},
 			{"ctor-reuse", "late-dial", rep}, {"ctor-pipeline", "late-dial", rep}, {"ctor-reuse", "idle", rep}, {"ctor-pipeline", "inflight", rep}}, cells...)
 	}
 	parallelFor(len(cells), 12, nil, func(i int) {
@@ -297,6 +299,25 @@ func c18UpstreamChild(args []string) int {
 	if err != nil {
 		fmt.Println("INCONCLUSIVE listen:", err)
 		return 0
+	}
+	if point == "handshake-stall" {
+		// a server that completes the TCP connection, reads whatever comes and never says anything:
+		// the TLS handshake of the upstream stalls after its ClientHello
+		bl, err := net.Listen("tcp4", "127.0.0.1:0")
+		if err != nil {
+			fmt.Println("INCONCLUSIVE listen:", err)
+			return 0
+		}
+		go func() {
+			for {
+				cn, err := bl.Accept()
+				if err != nil {
+					return
+				}
+				go func() { io.Copy(io.Discard, cn); cn.Close() }()
+			}
+		}()
+		addr = kind + "://" + bl.Addr().String()
 	}
 	time.Sleep(50 * time.Millisecond)
 	base := socketCount()
@@ -521,6 +542,41 @@ func c18UpstreamChild(args []string) int {
 		}
 		fmt.Printf("COUNT eol_connections_dialled %d\n", dials.Load())
 		time.Sleep(100 * time.Millisecond)
+	case "abandoned-dial":
+		// the caller gives up (200 ms) while its dial is still under way (held for 700 ms); the dial
+		// completes afterwards with nobody waiting for it. Whatever the transport does with that
+		// connection, Close must find it.
+		dialGate.Store(true)
+		if d, err := exchange("ok-abandoned.c18.test.", 200*time.Millisecond); err == nil {
+			fmt.Println("INCONCLUSIVE the exchange did not give up before its dial completed:", d)
+			return 0
+		}
+		dialGate.Store(false)
+		time.Sleep(900 * time.Millisecond) // the dial has completed by now
+		fmt.Printf("COUNT abandoned_dials %d\n", dials.Load())
+	case "handshake-stall":
+		hsDone := make(chan time.Duration, 1)
+		hsStart := time.Now()
+		inflight.Add(1)
+		go func() {
+			defer inflight.Done()
+			exchange("ok-stalled.c18.test.", 8*time.Second)
+			hsDone <- time.Since(hsStart)
+		}()
+		time.Sleep(300 * time.Millisecond) // TCP connected, ClientHello sent, nothing comes back
+		go func() {
+			// judged relative to the Close below (which follows at once)
+			tClose := time.Now()
+			select {
+			case <-hsDone:
+				if d := time.Since(tClose); d > 1500*time.Millisecond {
+					fmt.Printf("VIOL handshake-stall-exchange-not-released:%s an exchange whose TLS handshake was stalled returned only %v after Close()\n", kind, d)
+				}
+			case <-time.After(7 * time.Second):
+				fmt.Printf("VIOL handshake-stall-exchange-not-released:%s an exchange whose TLS handshake was stalled had not returned 7 s after Close()\n", kind)
+			}
+			fmt.Println("COUNT handshake_stall_cells 1")
+		}()
 	case "pending-dial":
 		dialGate.Store(true)
 		for i := 0; i < 3; i++ {
